@@ -1,5 +1,5 @@
 use super::{ExecutionError, Felt, Host, Operation, Process};
-use crate::Word;
+use crate::{Word, ONE};
 
 // INPUT / OUTPUT OPERATIONS
 // ================================================================================================
@@ -92,6 +92,8 @@ where
         // get the address from position 12 on the stack
         let ctx = self.system.ctx();
         let addr = Self::get_valid_address(self.stack.get(12))?;
+        // the second word lives at addr + 1, which must be a valid address as well
+        Self::get_valid_address(self.stack.get(12) + ONE)?;
 
         // load two words from memory
         let words = self.chiplets.read_mem_double(ctx, addr);
@@ -108,7 +110,7 @@ where
         }
 
         // increment the address by 2
-        self.stack.set(12, Felt::from(addr + 2));
+        self.stack.set(12, Felt::from(addr) + Felt::from(2u8));
 
         // copy over the rest of the stack
         self.stack.copy_state(13);
@@ -191,6 +193,8 @@ where
         // get the address from position 12 on the stack
         let ctx = self.system.ctx();
         let addr = Self::get_valid_address(self.stack.get(12))?;
+        // the second word lives at addr + 1, which must be a valid address as well
+        Self::get_valid_address(self.stack.get(12) + ONE)?;
 
         // pop two words from the advice stack
         let words = self.host.borrow_mut().pop_adv_stack_dword(self)?;
@@ -210,7 +214,7 @@ where
         }
 
         // increment the address by 2
-        self.stack.set(12, Felt::from(addr + 2));
+        self.stack.set(12, Felt::from(addr) + Felt::from(2u8));
 
         // copy over the rest of the stack
         self.stack.copy_state(13);
